@@ -90,6 +90,11 @@ type connection struct {
 	readTimeout  time.Duration
 
 	onErrorFunc func(error)
+
+	// mu makes "mark as being handled" (connection goroutine) and "close when not being handled" (Shutdown) mutually
+	// exclusive decisions
+	mu                 sync.Mutex
+	isClosedByShutdown bool
 }
 
 // ListenAndServe starts accepting connection on given address and handles received data with handler function.
@@ -279,7 +284,13 @@ func (c *connection) handle(ctx context.Context) {
 			continue // nothing read and not idle yet
 		}
 
+		c.mu.Lock()
+		if c.isClosedByShutdown {
+			c.mu.Unlock()
+			return // Shutdown decided that this connection is idle and is closing it. Do not start handling.
+		}
 		c.isBeingHandled.Store(true)
+		c.mu.Unlock()
 		toSend, closeConn := c.assembler.ReceiveRead(cCtx, received[0:n], n)
 		if toSend != nil {
 			_ = conn.SetWriteDeadline(time.Now().Add(wTimeout))
@@ -320,10 +331,14 @@ func (s *Server) Shutdown(ctx context.Context) error {
 	for {
 		allIdle := true
 		for c := range s.activeConnections {
+			c.mu.Lock()
 			if c.isBeingHandled.Load() {
+				c.mu.Unlock()
 				allIdle = false
 				continue
 			}
+			c.isClosedByShutdown = true
+			c.mu.Unlock()
 			(*c).conn.Close()
 			delete(s.activeConnections, c)
 		}
